@@ -21,11 +21,6 @@ StrictAsc(s) == \A i \in 1 .. Len(s) - 1 : s[i] < s[i + 1]
 IsSortedEnum(s, S) == StrictAsc(s) /\ Range(s) = S /\ Len(s) = Cardinality(S)
 NoDup(s) == \A i, j \in DOMAIN s : i # j => s[i] # s[j]
 
-(* Known findings (/verif/KNOWN_FINDINGS.txt): the runner exports one environment variable C18K_<key> per listed  *)
-(* `finding:` line.  A contract action may then tolerate exactly the recorded wrong behaviour; every use is printed *)
-(* so that the runner reports it as KNOWN-FINDING.  Without the variable the behaviour is rejected.                 *)
-KnownFinding(envname) == envname \in DOMAIN IOEnv /\ PrintT(<<"KNOWN", envname>>)
-
 (* ---- addresses ---- *)
 ALe(a, b) == a[1] < b[1] \/ (a[1] = b[1] /\ a[2] <= b[2])
 ALt(a, b) == a[1] < b[1] \/ (a[1] = b[1] /\ a[2] < b[2])
@@ -39,4 +34,6 @@ RInside(r, c) == ALe(c[1], r[1]) /\ ALe(r[2], c[2])
 RDisjoint(r, q) == ALe(r[2], q[1]) \/ ALe(q[2], r[1])
 RAligned(r, n) == r[1][2] % n = 0
 RSize(r) == ASub(r[2], r[1])
+RECURSIVE SumSeq(_)
+SumSeq(s) == IF s = <<>> THEN 0 ELSE s[1] + SumSeq(Tail(s))
 =============================================================================
